@@ -848,6 +848,22 @@ def table_cases():
     return [t, {"id": "detect_saenger", "kind": "saenger", "calls": calls}]
 
 
+def chem_table_case():
+    """The implementation's donor / acceptor / edge tables as data (TLC compares them with Annot.tla's)."""
+    c = {"id": "chem-tables", "kind": "chem", "err": "", "donors": [], "acceptors": [], "edges": [], "phosphate": [],
+         "ribose": []}
+    try:
+        from rnapolis import tertiary as t
+        c["donors"] = [[L, a] for L, v in t.BASE_DONORS.items() for a in v]
+        c["acceptors"] = [[L, a] for L, v in t.BASE_ACCEPTORS.items() for a in v]
+        c["edges"] = [[L, a, e] for L, v in t.BASE_EDGES.items() for a, es in v.items() for e in es]
+        c["phosphate"] = list(t.PHOSPHATE_ACCEPTORS)
+        c["ribose"] = list(t.RIBOSE_ACCEPTORS)
+    except Exception as e:
+        c["err"] = type(e).__name__
+    return c
+
+
 def record_c03(r):
     return record(r, "C03")
 
